@@ -45,6 +45,19 @@ def grid(tier, rng):
             for (k, r) in {(1, 1), (lim - 1, 1), (lim, 1), (lim + 1, 1), (10, 5), (20, 5), (15, 1), (16, 1), (200, 55), (1, lim - 1), (1, lim)}:
                 execs.append(["create 0 2 %s" % rng.choice(["enc", "dec"]), "setctrl 0 1024 %d 2" % m1,
                               "rawparams 0 %d %d 4 %d 0 0" % (k, r, m2), "release 0"])
+    # a rejected configuration stays rejected when it is tried again on the same session, whatever was selected or
+    # rejected before it (field size through the control parameter, a configuration refused for another reason)
+    for m1 in (4, 8):
+        for bad in (0, 1, 5, 9, 16):
+            role = rng.choice(["enc", "dec"])
+            execs.append(["create 0 2 %s" % role, "setctrl 0 1024 %d 2" % m1] + ["rawparams 0 3 2 4 %d 0 0" % bad] * 2 + ["release 0"])
+            execs.append(["create 0 2 %s" % role, "rawparams 0 300 5 4 %d 0 0" % m1] + ["rawparams 0 3 2 4 %d 0 0" % bad] * 2 +
+                         ["rawparams 0 3 2 4 %d 0 0" % m1, "release 0"])
+    for (c, first, again) in ((1, (300, 5, 4, 0, 0, 0), (0, 5, 4, 0, 0, 0)), (1, (0, 5, 4, 0, 0, 0), (200, 100, 4, 0, 0, 0)),
+                              (3, (10, 5, 4, 0, 2, 1), (10, 5, 4, 0, 6, 1)), (3, (10, 5, 4, 0, 3, 0), (10, 5, 0, 0, 3, 1)),
+                              (3, (0, 5, 4, 0, 3, 1), (10, 5, 4, 0, 3, -1)), (5, (0, 4, 4, 0, 0, 0), (4, 0, 4, 0, 0, 0))):
+        role = rng.choice(["enc", "dec"])
+        execs.append(["create 0 %d %s" % (c, role), "rawparams 0 %d %d %d %d %d %d" % first] + ["rawparams 0 %d %d %d %d %d %d" % again] * 2 + ["release 0"])
     # LDPC-Staircase (advertised maxima are read from the session; 50000 in this build)
     mk = 50000
     seeds = [-2 ** 31, -1, 0, 1, 2 ** 31 - 2, 2 ** 31 - 1]
